@@ -211,8 +211,8 @@ func vc12CoqCase(in *c12h.Input, r *c12h.Result) (string, bool) {
 
 func TestVerif_C12(t *testing.T) {
 	c12h.Run(t, &c12h.Part{
-		Name: "bucketteer",
-		Rule: "bucketteer.NewReader / Reader.Has on mutated sig-exists files: no panic, allocation <= 8*len + 2 MiB, no hang; class of NewReader = Coq model",
+		Name:  "bucketteer",
+		Rule:  "bucketteer.NewReader / Reader.Has on mutated sig-exists files: no panic, allocation <= 8*len + 2 MiB, no hang; class of NewReader = Coq model",
 		Seeds: vc12Seeds, Gen: vc12Gen, Exec: vc12Exec,
 		Budget: func(in *c12h.Input) uint64 { return uint64(8*len(in.Data)) + 2<<20 },
 		Witnesses: func(seeds []c12h.Seed) map[string]c12h.Input {
